@@ -365,11 +365,10 @@ func (l *NDNLPLinkService) handleIncomingFrame(frame []byte) {
 			copy(pkt.PitToken, LP.PitToken)
 		}
 
-		// Copy fragment to wire buffer
-		wire = wire[:0]
-		for _, b := range fragment {
-			wire = append(wire, b...)
-		}
+		// The fragment buffers may alias the received frame (wire), so a
+		// reassembled packet is joined into a fresh buffer instead of being
+		// copied over the frame it partly lives in.
+		wire = fragment.Join()
 
 		// Parse inner packet in place
 		L3, _, err := spec.ReadPacket(enc.NewBufferReader(wire))
